@@ -20,6 +20,21 @@ def sig_shapes():
     return out
 
 
+def mixed_shapes():
+    """Two states of one machine declaring the same parameter subset in different orders (every ordered pair)."""
+    import itertools
+
+    out = []
+    n = 0
+    for r in (2, 3):
+        for subset in itertools.combinations(("tm", "state_tm", "initial_call"), r):
+            perms = list(itertools.permutations(subset))
+            for p1, p2 in itertools.permutations(perms, 2):
+                n += 1
+                out.append(E.shape(f"mixsig{n}", [E.S("a", "timed", first=True, dur=1, next="b", sig=p1), E.S("b", sig=p2), E.S("d", "default", sig=p2[::-1])]))
+    return out
+
+
 def main(tier, seed):
     if tier == "quick":
         shapes = E.curated_shapes()
@@ -27,7 +42,7 @@ def main(tier, seed):
     else:
         shapes = E.curated_shapes() + E.family_shapes()
         p = dict(nops=4, maxdev=2, bfs_depth=9, probe_every=11)
-    sigs = sig_shapes()
+    sigs = sig_shapes() + mixed_shapes()
     return E.run_check(PID, tier, seed, shapes=shapes + sigs, sig_names={s["name"] for s in sigs}, **p)
 
 
